@@ -64,6 +64,67 @@ impl Bnf {
     }
 }
 
+impl Bnf {
+    /// identical (lhs, rhs) productions removed
+    pub fn without_duplicates(&self) -> Bnf {
+        let mut g = self.clone();
+        let mut seen: Vec<(usize, Vec<BSym>)> = vec![];
+        g.prods.retain(|p| {
+            if seen.contains(p) {
+                false
+            } else {
+                seen.push(p.clone());
+                true
+            }
+        });
+        g
+    }
+
+    /// a non-terminal derives itself (A =>+ A): the grammar is infinitely ambiguous
+    pub fn is_cyclic(&self) -> bool {
+        let n = self.nts.len();
+        // nullable
+        let mut nullable = vec![false; n];
+        loop {
+            let mut ch = false;
+            for (l, r) in &self.prods {
+                if !nullable[*l] && r.iter().all(|s| matches!(s, BSym::N(x) if *x < n && nullable[*x])) {
+                    nullable[*l] = true;
+                    ch = true;
+                }
+            }
+            if !ch {
+                break;
+            }
+        }
+        // unit relation A -> B when A: alpha B beta with alpha, beta nullable
+        let mut rel = vec![vec![false; n]; n];
+        for (l, r) in &self.prods {
+            for (i, s) in r.iter().enumerate() {
+                if let BSym::N(b) = s {
+                    if *b >= n {
+                        continue;
+                    }
+                    let rest_nullable = r.iter().enumerate().all(|(j, t)| j == i || matches!(t, BSym::N(x) if *x < n && nullable[*x]));
+                    if rest_nullable {
+                        rel[*l][*b] = true;
+                    }
+                }
+            }
+        }
+        for k in 0..n {
+            for i in 0..n {
+                for j in 0..n {
+                    if rel[i][k] && rel[k][j] {
+                        rel[i][j] = true;
+                    }
+                }
+            }
+        }
+        (0..n).any(|i| rel[i][i])
+    }
+}
+
 /// k-truncated concatenation; strings ending in EOI are closed and cannot be extended
 pub fn kconcat(a: &Set, b: &Set, k: usize, budget: &mut i64) -> Result<Set, TooBig> {
     let mut r = Set::new();
